@@ -28,7 +28,7 @@ CHECKS = {
 # Properties not claimed (with reason). Filled/emptied as checks are built.
 NOT_APPLICABLE = {}
 
-HOOK_COMMITS = ["cd541b0", "94bb9f9", "ab6c13a"]
+HOOK_COMMITS = ["cd541b0", "94bb9f9", "ab6c13a", "00dbf96"]
 
 CHECKS["C06"] = {
     "tests": [T("TestC06", 300, 2500)],
@@ -60,5 +60,16 @@ CHECKS["C15"] = {
     "level_text": "The single-writer (T<=12) x limit grid is enumerated completely in both tiers; multi-head logs are sampled.",
     "level_note": "Trusted: go-ipfs-log fetcher and Join (the limit-beyond-log panic originates there and is worked around at go-orbit-db's call site). Restart = instance closed and re-created on the same recorded datastore and block store.",
     "design_ref": "5/C15",
+    "assumptions": TRUST,
+}
+
+CHECKS["C13"] = {
+    "tests": [T("TestC13", 150, 1500)],
+    "level": "exploration",
+    "technique": "property-based testing (rapid): generated log shapes and payload sizes, snapshot save / fresh-instance load round trip compared field by field",
+    "rule": "rapid draws a store type (eventlog/keyvalue/docstore), 0-2 other writers, up to 7 steps (runs of local writes, remote writes, merges => empty, chain, forked, multi-writer, replicated logs), payload sizes from 0 to 300 KB weighted on the 16-bit entry-JSON boundary (raw 36300-37100) and on large entries that still fit (several exceed one 256 KiB UnixFS chunk), and optionally a replication left in progress (fetches parked by the harness) while SaveSnapshot runs; oracle: a panic in SaveSnapshot or LoadFromSnapshot is a violation, an error from SaveSnapshot is accepted, otherwise a fresh instance on the same disk (peer cut off) must LoadFromSnapshot without error and show the same entry set, Values() order, heads and view (with a saved non-empty queue: a superset containing the saved entries in the same relative order); non-trivial = log holds a replicated entry, or an entry whose JSON exceeds 60000 bytes, or replication was in progress; distinct = SHA-1 of the case JSON",
+    "level_text": "Generated round trips over real kubo UnixFS; no exhaustiveness claimed.",
+    "level_note": "Trusted: kubo UnixFS add/get, go-ipfs-log NewFromJSON. The snapshot is reloaded by a fresh OrbitDB instance on the same recorded datastore, without Load.",
+    "design_ref": "5/C13",
     "assumptions": TRUST,
 }
